@@ -79,22 +79,68 @@ package statebackend
 // the chain height goes back by one (or is removed with the genesis block).
 //@ extern func github.com/NethermindEth/juno/core.GetBlockHeaderHashByNumber
 //@   ensures result1 == nil ==> result0 != nil
+// Storing the CASM-hash bookkeeping of a block: a record is written for EVERY Sierra class the block
+// declares - by the V2 routine from 0.14.1 on, by the V1 routine (which pre-computes the V2 hash)
+// before - and for every class it migrates; through the writer handed in. Together with the revert
+// contract below: what a block's storing wrote, its revert drops or restores.
+//@ opaque type github.com/NethermindEth/juno/core/felt.SierraClassHash like github.com/NethermindEth/juno/core/felt.Felt
+//@ ghost var casmDropped set[felt.SierraClassHash]
+//@ ghost var casmRestored set[felt.SierraClassHash]
+//@ extern func github.com/NethermindEth/juno/core.WriteClassCasmHashMetadata
+//@   logged as WriteCasm
+//@   sets casmRestored = setadd(casmRestored, *classHash)
+//@ extern func github.com/NethermindEth/juno/core.GetClassCasmHashMetadata
+//@ extern func github.com/NethermindEth/juno/core/felt.(*SierraClassHash).String
+//@ opaque type github.com/Masterminds/semver/v3.Version
+//@ extern func github.com/NethermindEth/juno/core.ParseBlockVersion
+//@ extern func github.com/Masterminds/semver/v3.(*Version).GreaterThanEqual
+//@ extern func github.com/Masterminds/semver/v3.(*Version).GreaterThan
+//@ extern func github.com/Masterminds/semver/v3.(*Version).LessThan
+//@ extern func github.com/Masterminds/semver/v3.(*Version).LessThanEqual
+//@ extern func github.com/Masterminds/semver/v3.(*Version).Equal
+//@ extern func github.com/NethermindEth/juno/core.NewCasmHashMetadataDeclaredV2
+//@ extern func github.com/NethermindEth/juno/core.NewCasmHashMetadataDeclaredV1
+//@ extern func github.com/NethermindEth/juno/core.(*ClassCasmHashMetadata).Migrate
+//@ extern func github.com/NethermindEth/juno/core.(*CasmClass).Hash
+//@ func storeCasmHashMetadataV2
+//@   props C04
+//@   logged
+//@   arith int
+//@   nosafe
+//@   assigns casmRestored, calls_WriteCasm, arg_WriteCasm_w, arg_WriteCasm_classHash, arg_WriteCasm_metadata
+//@   callsite WriteClassCasmHashMetadata@*: through_the_writer: $0 == writer
+//@   loop 1: invariant declared_so_far: forall c felt.Felt :: visited(c) ==> setin(casmRestored, c)
+//@   loop 2: invariant migrated_so_far: forall c felt.SierraClassHash :: visited(c) ==> setin(casmRestored, c)
+//@   loop 2: invariant declared_kept: forall c felt.Felt :: atentry(setin(casmRestored, c)) ==> setin(casmRestored, c)
+//@   ensures a_record_for_every_declared_class: result == nil ==> (forall c felt.Felt :: old(in(stateUpdate.StateDiff.DeclaredV1Classes, c)) ==> setin(casmRestored, c))
+//@   ensures a_record_for_every_migrated_class: result == nil ==> (forall c felt.SierraClassHash :: old(in(stateUpdate.StateDiff.MigratedClasses, c)) ==> setin(casmRestored, c))
+//@ func storeCasmHashMetadataV1
+//@   props C04
+//@   logged
+//@   arith int
+//@   nosafe
+//@   assigns casmRestored, calls_WriteCasm, arg_WriteCasm_w, arg_WriteCasm_classHash, arg_WriteCasm_metadata
+//@   callsite WriteClassCasmHashMetadata@*: through_the_writer: $0 == writer
+//@   loop 1: invariant declared_so_far: forall c felt.Felt :: visited(c) ==> setin(casmRestored, c)
+//@   ensures a_record_for_every_declared_class: result == nil ==> (forall c felt.Felt :: old(in(stateUpdate.StateDiff.DeclaredV1Classes, c)) ==> setin(casmRestored, c))
+//@ func storeCasmHashMetadata
+//@   props C04, C05
+//@   logged
+//@   arith int
+//@   nosafe
+//@   assigns casmRestored, calls_WriteCasm, arg_WriteCasm_w, arg_WriteCasm_classHash, arg_WriteCasm_metadata, calls_storeCasmHashMetadataV1, arg_storeCasmHashMetadataV1_writer, arg_storeCasmHashMetadataV1_blockNumber, arg_storeCasmHashMetadataV1_stateUpdate, arg_storeCasmHashMetadataV1_newClasses, calls_storeCasmHashMetadataV2, arg_storeCasmHashMetadataV2_reader, arg_storeCasmHashMetadataV2_writer, arg_storeCasmHashMetadataV2_blockNumber, arg_storeCasmHashMetadataV2_stateUpdate
+//@   callsite storeCasmHashMetadataV1@*: this_block_into_the_writer: $0 == writer && $1 == blockNumber && $2 == stateUpdate && $3 == newClasses
+//@   callsite storeCasmHashMetadataV2@*: this_block_into_the_writer: $0 == reader && $1 == writer && $2 == blockNumber && $3 == stateUpdate
+//@   ensures a_record_for_every_declared_class_of_every_version: result == nil ==> (forall c felt.Felt :: old(in(stateUpdate.StateDiff.DeclaredV1Classes, c)) ==> setin(casmRestored, c))
+
 // Reverting the CASM-hash bookkeeping of a block: the record of EVERY Sierra class the block declared
 // is deleted and the record of EVERY class the block migrated is rewritten (un-migrated), through the
 // revert's own batch - whatever the block's protocol version: the store side writes a record for
 // every declared Sierra class of every version.
-//@ opaque type github.com/NethermindEth/juno/core/felt.SierraClassHash like github.com/NethermindEth/juno/core/felt.Felt
-//@ ghost var casmDropped set[felt.SierraClassHash]
-//@ ghost var casmRestored set[felt.SierraClassHash]
 //@ extern func github.com/NethermindEth/juno/core.DeleteClassCasmHashMetadata
 //@   logged as DeleteCasm
 //@   sets casmDropped = setadd(casmDropped, *classHash)
-//@ extern func github.com/NethermindEth/juno/core.GetClassCasmHashMetadata
 //@ extern func github.com/NethermindEth/juno/core.(*ClassCasmHashMetadata).Unmigrate
-//@ extern func github.com/NethermindEth/juno/core.WriteClassCasmHashMetadata
-//@   logged as WriteCasm
-//@   sets casmRestored = setadd(casmRestored, *classHash)
-//@ extern func github.com/NethermindEth/juno/core/felt.(*SierraClassHash).String
 //@ func revertCasmHashMetadata
 //@   props C04
 //@   logged
@@ -209,16 +255,13 @@ package statebackend
 //@   logged as WriteL1Msgs
 //@ extern func github.com/NethermindEth/juno/core.WriteChainHeight
 //@   logged as WriteChainHeight
-//@ func storeCasmHashMetadata
-//@   trusted
-//@   logged
 //@ func writeBlockContent
 //@   props C05
 //@   arith int
 //@   nosafe
 //@   logged
 //@   requires block != nil && block.Header != nil
-//@   assigns core.calls_BucketPut, core.arg_BucketPut_database, core.arg_BucketPut_value, core.l1Hashed, core.calls_WriteL1HandlerTxnHashByMsgHash, core.arg_WriteL1HandlerTxnHashByMsgHash_w, core.arg_WriteL1HandlerTxnHashByMsgHash_msgHash, core.arg_WriteL1HandlerTxnHashByMsgHash_l1HandlerTxnHash, calls_WriteBlockHeader, arg_WriteBlockHeader_w, arg_WriteBlockHeader_header, calls_WriteTxs, arg_WriteTxs_w, arg_WriteTxs_blockNumber, arg_WriteTxs_transactions, arg_WriteTxs_receipts, calls_WriteStateUpdate, arg_WriteStateUpdate_w, arg_WriteStateUpdate_blockNum, arg_WriteStateUpdate_stateUpdate, calls_WriteCommitment, arg_WriteCommitment_w, arg_WriteCommitment_blockNum, arg_WriteCommitment_commitment, calls_WriteL1Msgs, arg_WriteL1Msgs_w, arg_WriteL1Msgs_txns, calls_storeCasmHashMetadata, arg_storeCasmHashMetadata_reader, arg_storeCasmHashMetadata_writer, arg_storeCasmHashMetadata_blockNumber, arg_storeCasmHashMetadata_protocolVersion, arg_storeCasmHashMetadata_stateUpdate, arg_storeCasmHashMetadata_newClasses, calls_WriteChainHeight, arg_WriteChainHeight_w, arg_WriteChainHeight_height
+//@   assigns casmRestored, calls_WriteCasm, arg_WriteCasm_w, arg_WriteCasm_classHash, arg_WriteCasm_metadata, calls_storeCasmHashMetadataV1, arg_storeCasmHashMetadataV1_writer, arg_storeCasmHashMetadataV1_blockNumber, arg_storeCasmHashMetadataV1_stateUpdate, arg_storeCasmHashMetadataV1_newClasses, calls_storeCasmHashMetadataV2, arg_storeCasmHashMetadataV2_reader, arg_storeCasmHashMetadataV2_writer, arg_storeCasmHashMetadataV2_blockNumber, arg_storeCasmHashMetadataV2_stateUpdate, core.calls_BucketPut, core.arg_BucketPut_database, core.arg_BucketPut_value, core.l1Hashed, core.calls_WriteL1HandlerTxnHashByMsgHash, core.arg_WriteL1HandlerTxnHashByMsgHash_w, core.arg_WriteL1HandlerTxnHashByMsgHash_msgHash, core.arg_WriteL1HandlerTxnHashByMsgHash_l1HandlerTxnHash, calls_WriteBlockHeader, arg_WriteBlockHeader_w, arg_WriteBlockHeader_header, calls_WriteTxs, arg_WriteTxs_w, arg_WriteTxs_blockNumber, arg_WriteTxs_transactions, arg_WriteTxs_receipts, calls_WriteStateUpdate, arg_WriteStateUpdate_w, arg_WriteStateUpdate_blockNum, arg_WriteStateUpdate_stateUpdate, calls_WriteCommitment, arg_WriteCommitment_w, arg_WriteCommitment_blockNum, arg_WriteCommitment_commitment, calls_WriteL1Msgs, arg_WriteL1Msgs_w, arg_WriteL1Msgs_txns, calls_storeCasmHashMetadata, arg_storeCasmHashMetadata_reader, arg_storeCasmHashMetadata_writer, arg_storeCasmHashMetadata_blockNumber, arg_storeCasmHashMetadata_protocolVersion, arg_storeCasmHashMetadata_stateUpdate, arg_storeCasmHashMetadata_newClasses, calls_WriteChainHeight, arg_WriteChainHeight_w, arg_WriteChainHeight_height
 //@   callsite WriteBlockHeader@*: this_block_into_the_batch: $0 == writer && $1 == block.Header
 //@   callsite WriteTransactionsAndReceipts@*: this_block_into_the_batch: $0 == writer && $1 == block.Number && $2 == block.Transactions && $3 == block.Receipts
 //@   callsite WriteStateUpdateByBlockNum@*: this_block_into_the_batch: $0 == writer && $1 == block.Number && $2 == stateUpdate
